@@ -475,15 +475,29 @@ class Program:
         self.resolved_indirect = {}
         for c in self.callback_sites:
             body = c.body
-            if not c.is_indirect or body.is_closure or body.is_pub and not body.impl_self:
+            if not c.is_indirect:
                 keep.append(c); continue
             fo = single_origin(trace_operand(body, c.term['func'], through_calls=set()))
-            if fo is None or fo.kind != 'param' or fo.proj or not re.match(r'^(for<[^>]*> )?(unsafe )?fn\(', body.locals[fo.data]['ty']):
+            owner = body
+            if fo is not None and fo.kind == 'param' and fo.data == 1 and body.is_closure and len(fo.proj) == 1 and fo.proj[0][0] == 'f':
+                # the pointer was captured by a closure (`.filter(|(_, v)| keep(v))`): it is the enclosing body's parameter
+                cs = self.closure_sites.get(body.id, [])
+                k = fo.proj[0][1]
+                fo = None
+                if len(cs) == 1:
+                    pb, pbb, pi = cs[0]
+                    agg = pb.blocks[pbb]['stmts'][pi]['rv']
+                    if k < len(agg['ops']):
+                        fo = single_origin(trace_operand(pb, agg['ops'][k], through_calls=set()))
+                        owner = pb
+            if owner.is_closure or self._publicly_reachable(owner):
+                keep.append(c); continue
+            if fo is None or fo.kind != 'param' or fo.proj or not re.match(r'^(for<[^>]*> )?(unsafe )?fn\(', owner.locals[fo.data]['ty']):
                 keep.append(c); continue
             sites = []
             for b2 in self.bodies:
                 for cc in b2.live_calls:
-                    if cc.ruid == body.id:
+                    if cc.ruid == owner.id:
                         sites.append(cc)
             targets = []
             okk = bool(sites)
@@ -493,6 +507,8 @@ class Program:
                 ao = single_origin(trace_operand(cc.body, cc.args[fo.data - 1], through_calls=set()))
                 if ao is not None and ao.kind == 'const' and 'fn' in ao.data and ao.data['fn'].get('crate') == self.f.crate:
                     targets.append(ao.data['fn']['uid'])
+                elif ao is not None and ao.kind == 'agg' and ao.data[2].get('agg') == 'closure' and not ao.data[2].get('ops') and ao.data[2]['closure'] in self.by_id:
+                    targets.append(ao.data[2]['closure'])      # a non-capturing closure coerced to a fn pointer
                 else:
                     okk = False; break
             if not okk:
@@ -567,8 +583,9 @@ class Program:
                 self.generic_cb_targets[(body.id, c.bb)] = targets
 
     def _publicly_reachable(self, body):
-        """can code outside the crate name this fn? (pub item of a pub type; approximated by `pub`)"""
-        return bool(body.is_pub)
+        """can code outside the crate name this fn?  The privacy pass's own answer (effective visibility: a pub item
+        on a path of pub modules / re-exports); `pub` alone when the fact file does not carry it"""
+        return bool(body.j.get('reachable', body.is_pub))
 
     def _trait_default_edges(self):
         """a local generic body (a trait's default method, a `fn f<T: Trait>`) that calls a method of a local trait
